@@ -1,6 +1,6 @@
 (* Lemmas for C10 about Model/Nat.v (statements used by Props/C10.v). *)
 From Coq Require Import ZArith NArith List Bool Lia ZifyBool ZifyNat FinFun.
-From Verif Require Import Model.Nat Model.NatSpec.
+From Verif Require Import Base.Check Model.Nat Model.NatSpec.
 Import ListNotations.
 Local Open Scope Z_scope.
 
@@ -743,29 +743,31 @@ Qed.
 (* ------------------------------------------------------------------ outside the guard (witnesses) *)
 Definition w_ops3 : list op := [AddIP 1; Alloc 101; Alloc 102; Alloc 103].
 
+Definition w_cfg_range := {| c_pps := 3000; c_start := 60000; c_end := 70000 |}.
+Definition w_cfg_size := {| c_pps := 70000; c_start := 1; c_end := 200000 |}.
+Definition w_cfg_overlap := {| c_pps := 40000; c_start := 1; c_end := 200000 |}.
+Definition w_a102 := {| a_priv := 102; a_pub := 1; a_start := 63000; a_end := 463; a_pool := 0; a_sid := 2; a_blk := 1 |}.
+Definition w_a101 := {| a_priv := 101; a_pub := 1; a_start := 1; a_end := 4464; a_pool := 0; a_sid := 1; a_blk := 0 |}.
+Definition w_b101 := {| a_priv := 101; a_pub := 1; a_start := 1; a_end := 40000; a_pool := 0; a_sid := 1; a_blk := 0 |}.
+Definition w_b103 := {| a_priv := 103; a_pub := 1; a_start := 14465; a_end := 54464; a_pool := 0; a_sid := 3; a_blk := 2 |}.
+
 Lemma c10_in_range_outside_guard_refuted :
   ~ (forall c m ops a, In a (s_allocs (hist c m ops)) ->
        c_start c <= a_start a /\ a_start a <= a_end a /\ a_end a <= c_end c).
 Proof.
   intros H.
-  specialize (H {| c_pps := 3000; c_start := 60000; c_end := 70000 |} LogBulk w_ops3
-                {| a_priv := 102; a_pub := 1; a_start := 63000; a_end := 463; a_pool := 0; a_sid := 2; a_blk := 1 |}).
-  assert (Hin : In {| a_priv := 102; a_pub := 1; a_start := 63000; a_end := 463; a_pool := 0; a_sid := 2; a_blk := 1 |}
-                   (s_allocs (hist {| c_pps := 3000; c_start := 60000; c_end := 70000 |} LogBulk w_ops3))).
+  assert (Hin : In w_a102 (s_allocs (hist w_cfg_range LogBulk w_ops3))).
   { vm_compute. right. left. reflexivity. }
-  specialize (H Hin). cbn in H. lia.
+  pose proof (H _ _ _ _ Hin) as [_ [H2 _]]. vm_compute in H2. apply H2. reflexivity.
 Qed.
 
 Lemma c10_size_outside_guard_refuted :
   ~ (forall c m ops a, In a (s_allocs (hist c m ops)) -> a_end a - a_start a + 1 = c_pps c).
 Proof.
   intros H.
-  specialize (H {| c_pps := 70000; c_start := 1; c_end := 200000 |} LogBulk w_ops3
-                {| a_priv := 101; a_pub := 1; a_start := 1; a_end := 4464; a_pool := 0; a_sid := 1; a_blk := 0 |}).
-  assert (Hin : In {| a_priv := 101; a_pub := 1; a_start := 1; a_end := 4464; a_pool := 0; a_sid := 1; a_blk := 0 |}
-                   (s_allocs (hist {| c_pps := 70000; c_start := 1; c_end := 200000 |} LogBulk w_ops3))).
+  assert (Hin : In w_a101 (s_allocs (hist w_cfg_size LogBulk w_ops3))).
   { vm_compute. right. left. reflexivity. }
-  specialize (H Hin). cbn in H. lia.
+  pose proof (H _ _ _ _ Hin) as H2. vm_compute in H2. discriminate H2.
 Qed.
 
 Lemma c10_no_overlap_outside_guard_refuted :
@@ -773,12 +775,12 @@ Lemma c10_no_overlap_outside_guard_refuted :
        a_priv a <> a_priv b -> a_pub a = a_pub b -> a_end a < a_start b \/ a_end b < a_start a).
 Proof.
   intros H.
-  specialize (H {| c_pps := 40000; c_start := 1; c_end := 200000 |} LogBulk w_ops3
-                {| a_priv := 101; a_pub := 1; a_start := 1; a_end := 40000; a_pool := 0; a_sid := 1; a_blk := 0 |}
-                {| a_priv := 103; a_pub := 1; a_start := 14465; a_end := 54464; a_pool := 0; a_sid := 3; a_blk := 2 |}).
-  cbn in H. destruct H as [H|H]; try lia; try discriminate; try reflexivity.
-  - vm_compute. right. right. left. reflexivity.
-  - vm_compute. left. reflexivity.
+  assert (Hin1 : In w_b101 (s_allocs (hist w_cfg_overlap LogBulk w_ops3))).
+  { vm_compute. right. right. left. reflexivity. }
+  assert (Hin2 : In w_b103 (s_allocs (hist w_cfg_overlap LogBulk w_ops3))).
+  { vm_compute. left. reflexivity. }
+  assert (Hne : a_priv w_b101 <> a_priv w_b103) by (vm_compute; discriminate).
+  destruct (H _ _ _ _ _ Hin1 Hin2 Hne eq_refl) as [H2|H2]; vm_compute in H2; discriminate H2.
 Qed.
 
 (* a traditional-format record does not say where the block ends: two configurations write the
@@ -791,5 +793,138 @@ Lemma c10_traditional_record_alone_insufficient :
 Proof.
   exists {| c_pps := 1000; c_start := 60000; c_end := 65535 |},
          {| c_pps := 2000; c_start := 60000; c_end := 65535 |}, [AddIP 1; Alloc 101], 1, 61500.
-  repeat split; try reflexivity. vm_compute. discriminate.
+  split; [vm_compute; reflexivity|]. split; [vm_compute; reflexivity|].
+  split; [vm_compute; reflexivity|]. vm_compute. discriminate.
 Qed.
+
+(* ------------------------------------------------------------------ Model refines Spec *)
+Fixpoint mtrace (s : state) (ops : list op) : list (op * out) :=
+  match ops with
+  | [] => []
+  | o :: tl => (o, snd (fst (step s o))) :: mtrace (next s o) tl
+  end.
+
+Definition seq_op (o : op) : Prop := match o with ConcObs _ => False | _ => True end.
+
+Definition Rel (s : state) (ss : sstate) : Prop :=
+  ss_cfg ss = s_cfg s /\ ss_mode ss = s_mode s /\ ss_tab ss = map blk_of (s_allocs s).
+
+Lemma find_blk_map priv l : find_blk priv (map blk_of l) = option_map blk_of (find_alloc priv l).
+Proof. induction l as [|h tl IH]; cbn; [reflexivity|]. destruct (a_priv h =? priv); [reflexivity|exact IH]. Qed.
+
+Lemma same_blk_view a : same_blk (blk_of a) (view a) = true.
+Proof. unfold same_blk. cbn. rewrite !Z.eqb_refl. reflexivity. Qed.
+
+Lemma new_block_ok st' anew rest : Inv st' -> cfg_ok (s_cfg st') -> s_allocs st' = anew :: rest ->
+  new_block_clause (s_cfg st') (map blk_of rest) (view anew) = None.
+Proof.
+  intros HI Hc Ha.
+  assert (Hin : In anew (s_allocs st')) by (rewrite Ha; left; reflexivity).
+  destruct (inv_block st' anew HI Hc Hin) as [_ [He [H1 [H2 [H3 _]]]]].
+  unfold new_block_clause, in_range, size_ok. cbn.
+  replace (c_start (s_cfg st') <=? a_start anew) with true by lia.
+  replace (a_start anew <=? a_end anew) with true by lia.
+  replace (a_end anew <=? c_end (s_cfg st')) with true by lia.
+  replace (a_end anew - a_start anew + 1 =? c_pps (s_cfg st')) with true by lia. cbn.
+  replace (forallb (fun b => disjoint b (view anew)) (map blk_of rest)) with true; [reflexivity|].
+  symmetry. apply forallb_forall. intros x Hx. apply in_map_iff in Hx. destruct Hx as [a' [<- Ha']].
+  unfold disjoint. cbn. destruct (a_pub a' =? a_pub anew) eqn:Ep; [|reflexivity]. cbn. apply Z.eqb_eq in Ep.
+  assert (Hne : a_priv a' <> a_priv anew).
+  { pose proof (I_priv st' HI) as Hd. rewrite Ha in Hd. cbn in Hd. inversion Hd as [|? ? Hn _]; subst.
+    intros Hq. apply Hn. rewrite <- Hq. apply in_map. exact Ha'. }
+  assert (H1' : In a' (s_allocs st')) by (rewrite Ha; right; exact Ha').
+  destruct (inv_no_overlap st' a' anew HI Hc H1' Hin Hne Ep) as [H|H]; lia.
+Qed.
+
+Lemma assign_rec_ok_log m a : assign_rec_ok m (view a) (log_alloc m a) = true.
+Proof. destruct m; cbn; rewrite ?Z.eqb_refl; reflexivity. Qed.
+Lemma release_rec_ok_log m a : release_rec_ok m (blk_of a) (log_dealloc m a) = true.
+Proof. destruct m; cbn; rewrite ?Z.eqb_refl; reflexivity. Qed.
+
+Lemma alloc_new_shape s q : find_alloc q (s_allocs s) = None ->
+  (snd (fst (step s (Alloc q))) = mk_out (RErr 0) [] /\ s_allocs (next s (Alloc q)) = s_allocs s) \/
+  exists anew, snd (fst (step s (Alloc q))) = mk_out (RAlloc (view anew)) (log_alloc (s_mode s) anew) /\
+               s_allocs (next s (Alloc q)) = anew :: s_allocs s /\ a_priv anew = q.
+Proof.
+  intros H. unfold next, step, step_body. cbn. rewrite H.
+  destruct (select_pool 0 (s_pool s)) as [[[i p] b]|]; cbn; [|left; auto].
+  right. destruct (find_sid q (s_sids s)); cbn; eexists; repeat split.
+Qed.
+
+Lemma dealloc_shape s q a : find_alloc q (s_allocs s) = Some a ->
+  snd (fst (step s (Dealloc q))) = mk_out RNone (log_dealloc (s_mode s) a) /\
+  s_allocs (next s (Dealloc q)) = remove_alloc q (s_allocs s).
+Proof. intros H. unfold next, step, step_body. cbn. rewrite H. cbn. auto. Qed.
+
+Arguments new_block_clause : simpl never.
+Arguments assign_rec_ok : simpl never.
+Arguments release_rec_ok : simpl never.
+Arguments same_blk : simpl never.
+Arguments find_blk : simpl never.
+Arguments remove_blk : simpl never.
+
+Lemma step_accepted s ss o : Inv s -> cfg_ok (s_cfg s) -> Rel s ss -> seq_op o ->
+  exists ss', accept ss o (snd (fst (step s o))) = inl ss' /\ Rel (next s o) ss'.
+Proof.
+  intros HI Hc [Rc [Rm Rt]] Hseq.
+  pose proof (step_inv s o HI) as HI'. destruct (step_cfg s o) as [Hcf Hmo].
+  assert (Hkeep : s_allocs (next s o) = s_allocs s -> Rel (next s o) ss).
+  { intros Ha. unfold Rel. rewrite Hcf, Hmo, Ha. auto. }
+  destruct o as [ip|q|q|q| |co]; try contradiction.
+  - exists ss. split; [|apply Hkeep].
+    + unfold accept, step, step_body. cbn. destruct (existsb _ _); reflexivity.
+    + unfold next, step, step_body. cbn. destruct (existsb _ _); reflexivity.
+  - destruct (find_alloc q (s_allocs s)) as [a|] eqn:Ef.
+    + exists ss. destruct (find_alloc_some _ _ _ Ef) as [_ Hp]. split; [|apply Hkeep].
+      * unfold accept, step, step_body. cbn. rewrite Ef. cbn. rewrite Hp, Z.eqb_refl. cbn.
+        rewrite Rt, find_blk_map, Ef. cbn. rewrite same_blk_view. reflexivity.
+      * unfold next, step, step_body. cbn. rewrite Ef. reflexivity.
+    + destruct (alloc_new_shape s q Ef) as [[Ho Ha]|[anew [Ho [Ha Hp]]]].
+      * exists ss. split; [|apply Hkeep; exact Ha]. rewrite Ho. reflexivity.
+      * rewrite Ho. unfold accept. cbn. rewrite Hp, Z.eqb_refl. cbn.
+        rewrite Rt, find_blk_map, Ef. cbn. rewrite Rc, <- Hcf.
+        rewrite (new_block_ok _ anew _ HI' (eq_ind_r cfg_ok Hc Hcf) Ha).
+        rewrite Rm, assign_rec_ok_log. eexists. split; [reflexivity|].
+        unfold Rel. cbn. rewrite Hmo, Ha. cbn. rewrite Hcf. auto.
+  - destruct (find_alloc q (s_allocs s)) as [a|] eqn:Ef.
+    + destruct (dealloc_shape s q a Ef) as [Ho Ha]. rewrite Ho. unfold accept. cbn.
+      rewrite Rt, find_blk_map, Ef. cbn. rewrite Rm, release_rec_ok_log. eexists. split; [reflexivity|].
+      unfold Rel. cbn. rewrite Hcf, Hmo, Ha. repeat split; auto. apply remove_blk_alloc. exact Ef.
+    + exists ss. split; [|apply Hkeep].
+      * unfold accept, step, step_body. cbn. rewrite Ef. cbn. rewrite Rt, find_blk_map, Ef. reflexivity.
+      * unfold next, step, step_body. cbn. rewrite Ef. reflexivity.
+  - exists ss. split; [|apply Hkeep; reflexivity].
+    unfold accept, step, step_body. cbn. rewrite Rt, find_blk_map.
+    destruct (find_alloc q (s_allocs s)) as [a|]; cbn; [rewrite same_blk_view|]; reflexivity.
+  - exists ss. split; [reflexivity|apply Hkeep; reflexivity].
+Qed.
+
+Lemma model_accepted ops : forall s ss i, Inv s -> cfg_ok (s_cfg s) -> Rel s ss -> Forall seq_op ops ->
+  accept_trace accept i ss (mtrace s ops) = (0%N, 0%N).
+Proof.
+  induction ops as [|o tl IH]; intros s ss i HI Hc HR Hall; [reflexivity|].
+  inversion Hall; subst. cbn.
+  destruct (step_accepted s ss o HI Hc HR) as [ss' [Ha HR']]; [assumption|].
+  rewrite Ha. apply IH; auto.
+  - apply step_inv; exact HI.
+  - destruct (step_cfg s o) as [-> _]. exact Hc.
+Qed.
+
+Lemma c10_model_refines_spec c m ops : cfg_ok c -> Forall seq_op ops ->
+  accept_trace accept 1%N (sinit c m) (mtrace (init c m) ops) = (0%N, 0%N).
+Proof.
+  intros Hc Hall. apply model_accepted; auto; [apply inv_init|repeat split].
+Qed.
+
+(* the same statement on the functions bin/check evaluates (Base/Check.v) *)
+Lemma mtrace_check ops : forall s,
+  map (fun x => (fst (fst x), snd (fst x))) (model_trace step s ops) = mtrace s ops.
+Proof.
+  induction ops as [|o tl IH]; intros s; [reflexivity|]. cbn. unfold next.
+  destruct (step s o) as [[s' r] mk]. cbn. rewrite IH. reflexivity.
+Qed.
+
+Lemma c10_model_refines_spec_check c m ops : cfg_ok c -> Forall seq_op ops ->
+  accept_trace accept 1%N (sinit c m)
+    (map (fun x => (fst (fst x), snd (fst x))) (model_trace step (init c m) ops)) = (0%N, 0%N).
+Proof. intros Hc Hall. rewrite mtrace_check. apply c10_model_refines_spec; assumption. Qed.
